@@ -1,4 +1,4 @@
-CONSTANTS MaxLen = 6
+CONSTANTS MaxLen = 5
 Cfgs <- CfgsThorough
 EmitOn = TRUE
 INIT Init
